@@ -572,9 +572,33 @@ Proof.
   - rewrite R32_DIV in V. split; assumption.
 Qed.
 
+(** the time whose reciprocal is taken: both zeros are replaced by [+0.0] *)
+Definition t_eff (t : f32) : f32 := if feq t f_0 then f_0 else t.
+
+Lemma feq_zero_cases : forall t : f32, feq t f_0 = true <-> exists s, t = B754_zero s.
+Proof.
+  intros [s|s| |s m e H]; unfold feq, f_0, Beqb, SpecFloat.SFeqb, SpecFloat.SFcompare; simpl.
+  - split; [intros _; now exists s|reflexivity].
+  - split; [destruct s; discriminate|intros [s' E]; discriminate E].
+  - split; [discriminate|intros [s' E]; discriminate E].
+  - split; [destruct s; discriminate|intros [s' E]; discriminate E].
+Qed.
+
+Lemma t_eff_zero : forall s, t_eff (B754_zero s) = f_0.
+Proof. intros s. destruct s; reflexivity. Qed.
+
+Lemma t_eff_inf : forall s, t_eff (B754_infinity s) = B754_infinity s.
+Proof. intros s. destruct s; reflexivity. Qed.
+
+Lemma t_eff_nz : forall t : f32, R32 t <> 0 -> t_eff t = t.
+Proof.
+  intros t Hnz. unfold t_eff. destruct (feq t f_0) eqn:E; [|reflexivity].
+  apply feq_zero_cases in E. destruct E as [s ->]. exfalso. apply Hnz. reflexivity.
+Qed.
+
 (** the clamp of [glide_f0], whatever the requested time (NaN and infinities included) *)
 Lemma f0_clamp : forall fs g t, glide_fs_ok fs -> ginv fs g ->
-  let x := fdiv f_1 t in
+  let x := fdiv f_1 (t_eff t) in
   let r := glide_f0 g t in
   fin r /\ R32 GL_MIN_FC <= R32 r <= R32 fs / 4 /\
   (fin x -> R32 GL_MIN_FC <= R32 x <= R32 fs / 4 -> r = x) /\
@@ -587,7 +611,9 @@ Proof.
   assert (Hle : R32 GL_MIN_FC <= R32 (fdiv fs GL_DIV)).
   { rewrite Vm, R32_MIN_FC. destruct Hfs as [_ Hfs]. lra. }
   generalize (clamp_maxmin x GL_MIN_FC (fdiv fs GL_DIV) fin_MIN_FC Fm Hle).
-  cbv zeta. unfold r, glide_f0. rewrite E2, E3. fold x. rewrite Vm.
+  cbv zeta. unfold r.
+  change (glide_f0 g t) with (fmin (fmax x (g_min_fc g)) (g_max_fc g)).
+  rewrite E2, E3, Vm.
   intros (H1 & H2 & _ & H4 & H5 & H6 & _ & H8). repeat split; tauto.
 Qed.
 
@@ -607,7 +633,8 @@ Proof.
   assert (Hlo : R32 GL_MIN_FC <= R32 fs / 4).
   { rewrite R32_MIN_FC. destruct Hfs as [_ Hfs]. lra. }
   destruct Ht as [[Ft Ht]|Ht].
-  - destruct (fdiv_correct f_1 t fin_f_1 Ft) as [V F].
+  - rewrite (t_eff_nz t) in H3, H4 by lra.
+    destruct (fdiv_correct f_1 t fin_f_1 Ft) as [V F].
     + lra.
     + rewrite R32_f_1. apply novf_pos. split.
       * apply Rlt_le, Rdiv_lt_0_compat; lra.
@@ -621,28 +648,29 @@ Proof.
       * rewrite H3; [|exact F|lra].
         apply f32_eq_of_R32; [exact F|exact fin_MIN_FC|exact Heq|].
         rewrite Heq, R32_MIN_FC. lra.
-  - subst t.
+  - subst t. rewrite t_eff_inf in H4.
     assert (E : fdiv f_1 (B754_infinity false) = B754_zero false).
     { apply B2SF_inj. vm_compute. reflexivity. }
     rewrite E in H4. apply H4; [reflexivity|].
     rewrite R32_MIN_FC. unfold R32. simpl. lra.
 Qed.
 
-(** times below two samples (except [-0.0]) select the maximum cutoff *)
+(** times below two samples (both zeros included) select the maximum cutoff *)
 Lemma f0_fast : forall fs g t, glide_fs_ok fs -> ginv fs g ->
-  fin t -> 0 <= R32 t < 2 / R32 fs -> t <> B754_zero true ->
+  fin t -> 0 <= R32 t < 2 / R32 fs ->
   glide_f0 g t = fdiv fs GL_DIV.
 Proof.
-  intros fs g t Hfs Hg Ft Ht Hnz.
+  intros fs g t Hfs Hg Ft Ht.
   generalize (f0_clamp fs g t Hfs Hg). cbv zeta. intros (_ & _ & H3 & _ & H5 & H6).
   destruct (max_fc_val fs Hfs) as [Fm Vm].
   destruct Hfs as [Ffs Hfs]. set (F := R32 fs) in *.
   assert (Hlo : R32 GL_MIN_FC <= F / 4) by (rewrite R32_MIN_FC; lra).
   destruct (Req_dec (R32 t) 0) as [Hz|Hp].
   - destruct (fin_zero_cases t Ft Hz) as [s Hs]. subst t.
-    destruct s; [congruence|].
+    rewrite t_eff_zero in H6.
     apply H6. apply B2SF_inj. vm_compute. reflexivity.
-  - assert (Hpos : 0 < R32 t) by lra.
+  - rewrite (t_eff_nz t Hp) in H3, H5, H6.
+    assert (Hpos : 0 < R32 t) by lra.
     destruct (fdiv_1_pos t Ft Hpos) as [Hinf|[F1 V1]].
     + apply H6. exact Hinf.
     + assert (HtF : R32 t * F < 2).
@@ -834,6 +862,7 @@ Proof.
   { replace 480000 with (10 * 48000) by lra. apply Rmult_le_compat; lra. }
   assert (HT : 100 / 48000 <= T).
   { assert (T * F <= T * 48000) by (apply Rmult_le_compat_l; lra). lra. }
+  rewrite (t_eff_nz t) in H3 by (fold T; lra).
   (* 1 / t *)
   set (it := 1 / T).
   assert (Hit : /10 <= it <= F / 100).
@@ -941,18 +970,20 @@ Proof.
   intros [(H1 & _ & H3 & H4) H2]. auto.
 Qed.
 
-(** C14_fastest, except for [t = -0.0] (see [fastest_counterexample] below) *)
+(** C14_fastest.  History: with the original [glide_f0] (reciprocal of [t] itself) this was
+    false for [t = -0.0] ([1 / -0.0 = -infinity] is clamped to the MINIMUM cutoff); the
+    code and the model now map both zeros to [+0.0] first. *)
 Theorem fastest_gen : T_EPS <= / 1048576 -> forall fs g0 g t,
   glide_fs_ok fs -> glide_new fs = Some g0 ->
   (exists ops, Forall op_time_ok ops /\ glide_after g0 ops = Some g) ->
-  fin t -> 0 <= R32 t < 2 / R32 fs -> t <> B754_zero true ->
+  fin t -> 0 <= R32 t < 2 / R32 fs ->
   coeffs_for g t = Some (d_c (g_lpf g0)) /\
   Rabs (pole (d_c (g_lpf g0))) <= / 1048576.
 Proof.
-  intros HT20 fs g0 g t Hfs E0 Hr Ft Ht Hnz.
+  intros HT20 fs g0 g t Hfs E0 Hr Ft Ht.
   destruct (reach_inv fs g0 g Hfs E0 Hr) as (_ & Hg & Hfp & _).
   split.
-  - unfold coeffs_for. rewrite (f0_fast fs g t Hfs Hg Ft Ht Hnz).
+  - unfold coeffs_for. rewrite (f0_fast fs g t Hfs Hg Ft Ht).
     destruct Hg as (E1 & _). rewrite E1. exact Hfp.
   - destruct (max_fc_val fs Hfs) as [Fm Vm].
     pose proof Hfs as [Ffs HF]. set (F := R32 fs) in *.
@@ -1001,63 +1032,4 @@ Proof.
   { apply novf. lra. }
   destruct (fabs_correct (fsub t c) F) as [Fa Va].
   unfold is_almost. rewrite (fle_true _ _ Fa fin_EPS). rewrite Va, V. tauto.
-Qed.
-
-(** ** [C14_fastest] as stated in Props/C14.v is false: [t = -0.0]
-
-    [fin t /\ 0 <= R32 t] admits [-0.0], for which [1.0 / t = -infinity] is clamped to the
-    MINIMUM cutoff (as in Rust: [set_time(-0.0)] selects 0.1 Hz).  Concretely, at
-    [fs = 48000] the coefficient [a1] installed for [t = -0.0] is [-16776996 * 2^-24]
-    (pole 0.99998689) whereas a new processor starts with [a1 = +0.0]. *)
-
-Definition cx_fs : f32 := of_Z 48000.
-Definition cx_g0 : glide :=
-  match glide_new cx_fs with
-  | Some g => g
-  | None => mkGlide f_0 f_0 f_0 (df1_new (mkCoeffs f_0 f_0 f_0 f_0 f_0)) f_0
-  end.
-
-Lemma fastest_counterexample :
-  glide_fs_ok cx_fs /\ glide_new cx_fs = Some cx_g0 /\
-  glide_after cx_g0 [] = Some cx_g0 /\
-  fin (B754_zero true) /\ 0 <= R32 (B754_zero true) < 2 / R32 cx_fs /\
-  glide_f0 cx_g0 (B754_zero true) = GL_MIN_FC /\
-  option_map (fun c => B2SF (k_a1 c)) (coeffs_for cx_g0 (B754_zero true))
-    = Some (SpecFloat.S754_finite true 16776996 (-24)) /\
-  B2SF (k_a1 (d_c (g_lpf cx_g0))) = SpecFloat.S754_zero false /\
-  coeffs_for cx_g0 (B754_zero true) <> Some (d_c (g_lpf cx_g0)).
-Proof.
-  assert (V : R32 cx_fs = 48000) by (apply (R32_of_Z_small 48000); lia).
-  split.
-  { split; [apply fin_of_Z_small; lia|]. rewrite V. lra. }
-  split.
-  { unfold cx_g0. destruct (glide_new cx_fs) eqn:E; [reflexivity|].
-    exfalso.
-    apply (f_equal (fun o : option glide => match o with Some _ => true | None => false end)) in E.
-    vm_compute in E. discriminate E. }
-  split; [reflexivity|].
-  split; [reflexivity|].
-  split.
-  { rewrite V. unfold R32. simpl. lra. }
-  split.
-  { apply B2SF_inj. vm_compute. reflexivity. }
-  split; [vm_compute; reflexivity|].
-  split; [vm_compute; reflexivity|].
-  intros H.
-  apply (f_equal (option_map (fun c => B2SF (k_a1 c)))) in H.
-  vm_compute in H. discriminate H.
-Qed.
-
-Theorem fastest_as_stated_is_false :
-  ~ (forall fs g0 g t,
-       glide_fs_ok fs -> glide_new fs = Some g0 ->
-       (exists ops, Forall op_time_ok ops /\ glide_after g0 ops = Some g) ->
-       fin t -> 0 <= R32 t < 2 / R32 fs ->
-       coeffs_for g t = Some (d_c (g_lpf g0)) /\
-       Rabs (pole (d_c (g_lpf g0))) <= / 1048576).
-Proof.
-  intros H.
-  destruct fastest_counterexample as (H1 & H2 & H3 & H4 & H5 & _ & _ & _ & H9).
-  destruct (H cx_fs cx_g0 cx_g0 (B754_zero true) H1 H2) as [E _]; auto.
-  exists []. split; [constructor|exact H3].
 Qed.
